@@ -75,6 +75,7 @@ type chain struct {
 	nonces    map[common.Address]uint64
 	receipts  map[common.Hash]*types.Receipt
 	block     uint64
+	opsFault  string
 }
 
 type txRec struct {
@@ -183,6 +184,10 @@ func (a *api) SendRawTransaction(raw hexutil.Bytes) (common.Hash, error) {
 	a.c.mu.Lock()
 	defer a.c.mu.Unlock()
 	name, meth, m := a.c.classify(tx.To(), tx.Data())
+	isOp := meth == "registerAndStake" || meth == "prepay"
+	if isOp && a.c.opsFault == "reject" {
+		return common.Hash{}, errors.New("insufficient funds for gas * price + value")
+	}
 	r := txRec{rec: rec{a.node, name, meth}, From: from, Value: tx.Value()}
 	if m != nil {
 		r.Args, _ = m.Inputs.Unpack(tx.Data()[4:])
@@ -191,8 +196,15 @@ func (a *api) SendRawTransaction(raw hexutil.Bytes) (common.Hash, error) {
 	// mined at once, successfully; the registries credit the value
 	a.c.nonces[from] = tx.Nonce() + 1
 	a.c.block++
-	a.c.receipts[tx.Hash()] = &types.Receipt{Type: tx.Type(), Status: 1, CumulativeGasUsed: 21000, TxHash: tx.Hash(), GasUsed: 21000,
+	st := uint64(1)
+	if isOp && a.c.opsFault == "revert" {
+		st = 0
+	}
+	a.c.receipts[tx.Hash()] = &types.Receipt{Type: tx.Type(), Status: st, CumulativeGasUsed: 21000, TxHash: tx.Hash(), GasUsed: 21000,
 		BlockHash: common.HexToHash("0xb10c"), BlockNumber: new(big.Int).SetUint64(a.c.block), Logs: []*types.Log{}}
+	if st == 0 {
+		return tx.Hash(), nil
+	}
 	switch name + "." + meth {
 	case "provider-registry.registerAndStake":
 		a.c.stake[from] = new(big.Int).Add(orZero(a.c.stake[from]), tx.Value())
@@ -239,6 +251,9 @@ type in struct {
 	Staked  bool   `json:"staked"`  // the provider has stake at the configured provider registry
 	Allowed bool   `json:"allowed"` // the bidder has allowance at the configured bidder registry
 	Ops     bool   `json:"ops"`     // also run the stake / prepay / read operations of the two APIs
+	// what happens to the stake / prepay transactions: "" mined successfully | revert (mined with
+	// status 0, nothing credited) | reject (the chain node refuses the raw transaction)
+	OpsFault string `json:"ops_fault,omitempty"`
 }
 
 type obs struct {
@@ -331,10 +346,10 @@ func run(sc in, rng *vh.Rng, cert, keyf string) (o obs) {
 		c.abis[name] = a
 	}
 	if sc.Staked {
-		c.stake[pKS.GetAddress()] = big.NewInt(10)
+		c.stake[pKS.GetAddress()] = big.NewInt(1000000)
 	}
 	if sc.Allowed {
-		c.allowance[bKS.GetAddress()] = big.NewInt(10)
+		c.allowance[bKS.GetAddress()] = big.NewInt(1000000)
 	}
 	pEP, bEP := c.endpoint("provider-node"), c.endpoint("bidder-node")
 	defer pEP.Close()
@@ -510,17 +525,20 @@ func run(sc in, rng *vh.Rng, cert, keyf string) (o obs) {
 	emu.Unlock()
 
 	if sc.Ops {
+		c.mu.Lock()
+		c.opsFault = sc.OpsFault
+		c.mu.Unlock()
 		nBefore := len(txs)
 		stakeAmt, prepayAmt := fmt.Sprint(7+rng.Intn(1000)), fmt.Sprint(7+rng.Intn(1000))
 		octx, ocancel := context.WithTimeout(ctx, 10*time.Second)
 		if r, err := engine.RegisterStake(octx, &providerapiv1.StakeRequest{Amount: stakeAmt}); err == nil {
-			want := new(big.Int).Add(orZero(map[bool]*big.Int{true: big.NewInt(10), false: nil}[sc.Staked]), vh.Big(stakeAmt))
+			want := new(big.Int).Add(orZero(map[bool]*big.Int{true: big.NewInt(1000000), false: nil}[sc.Staked]), vh.Big(stakeAmt))
 			o.StakeReported = map[bool]string{true: "balance-after", false: "other:" + r.Amount}[r.Amount == want.String()]
 		} else {
 			o.StakeReported = "error"
 		}
 		if r, err := bidder.PrepayAllowance(octx, &bidderapiv1.PrepayRequest{Amount: prepayAmt}); err == nil {
-			want := new(big.Int).Add(orZero(map[bool]*big.Int{true: big.NewInt(10), false: nil}[sc.Allowed]), vh.Big(prepayAmt))
+			want := new(big.Int).Add(orZero(map[bool]*big.Int{true: big.NewInt(1000000), false: nil}[sc.Allowed]), vh.Big(prepayAmt))
 			o.PrepayReported = map[bool]string{true: "balance-after", false: "other:" + r.Amount}[r.Amount == want.String()]
 		} else {
 			o.PrepayReported = "error"
@@ -561,6 +579,8 @@ func main() {
 		{Tag: "nodewire", Staked: true, Allowed: true, Ops: true},
 		{Tag: "nodewire", Staked: true, Allowed: false},
 		{Tag: "nodewire", Staked: false, Allowed: true},
+		{Tag: "nodewire", Staked: true, Allowed: true, Ops: true, OpsFault: "revert"},
+		{Tag: "nodewire", Staked: true, Allowed: true, Ops: true, OpsFault: "reject"},
 	}
 	if vh.Thorough() {
 		scs = append(scs, in{Tag: "nodewire", Staked: false, Allowed: false, Ops: true}, in{Tag: "nodewire", Staked: true, Allowed: true})
